@@ -2,8 +2,10 @@ package main
 
 import (
 	"bytes"
+	"encoding/binary"
 	"encoding/json"
 	"fmt"
+	"github.com/cloudwego/gopkg/protocol/thrift/base"
 	"os"
 	"os/exec"
 	"strconv"
@@ -145,6 +147,55 @@ func deepOne(c *Ctx, dc DeepCase) {
 	}
 }
 
+// giantFieldMonitor: the shipped structs meet an unknown STRING field of almost 2 GiB whose bytes are really there (a
+// lazily mapped buffer; nothing is allocated for it): FastRead skips it and reports the whole input, no panic, nothing
+// negative (Go monitor: TLC cannot hold a 2 GiB input)
+func giantFieldMonitor(c *Ctx) {
+	var buf []byte
+	func() {
+		defer func() { recover() }()
+		buf = make([]byte, 1<<31+64)
+	}()
+	if buf == nil {
+		c.Assume("giant unknown fields skipped: the address space could not be reserved")
+		return
+	}
+	for _, sl := range []uint32{1<<31 - 1, 1<<31 - 3, 1<<31 - 4, 1<<31 - 5, 1<<30 + 7} {
+		for i := range buf[:16] {
+			buf[i] = 0
+		}
+		buf[0], buf[1], buf[2] = 11, 0, 99 // STRING, field id 99: unknown to all three structs
+		binary.BigEndian.PutUint32(buf[3:], sl)
+		in := buf[:7+int(sl)+1] // ... the string's bytes, STOP
+		for _, name := range []string{"AppEx", "Base", "BaseResp", "skip", "uf"} {
+			bad := guarded(func() string {
+				var n int
+				var err error
+				switch name {
+				case "AppEx":
+					n, err = thrift.NewApplicationException(0, "").FastRead(in)
+				case "Base":
+					n, err = base.NewBase().FastRead(in)
+				case "BaseResp":
+					n, err = base.NewBaseResp().FastRead(in)
+				case "skip":
+					n, err = thrift.Binary.Skip(in, thrift.STRUCT)
+				default:
+					return "" // (ConvertUnknownFields copies the value: 2 GiB of real memory; left out)
+				}
+				if err != nil || n != len(in) {
+					return fmt.Sprintf("%s over an unknown string field of %d bytes: n=%d (input %d) err=%v", name, sl, n, len(in), err)
+				}
+				return ""
+			})
+			c.AddEvals(1)
+			if bad != "" {
+				c.GoViolation("giantfield-C03", "struct/giant-unknown-field/"+name, map[string]interface{}{"len": sl, "entry": name}, bad)
+			}
+		}
+	}
+}
+
 func deepChainMonitor(c *Ctx) {
 	t0 := time.Now()
 	levels := c.Pick(6<<20, 12<<20)
@@ -156,6 +207,7 @@ func deepChainMonitor(c *Ctx) {
 }
 
 func init() {
+	goReplays["giantfield-C03"] = func(c *Ctx, raw json.RawMessage) { giantFieldMonitor(c) }
 	goReplays["deep-C03"] = func(c *Ctx, raw json.RawMessage) {
 		var dc DeepCase
 		if json.Unmarshal(raw, &dc) == nil && dc.Levels > 0 {
